@@ -125,8 +125,10 @@ func (e *Env) GetEnvFromPath(path []string) (*Env, error) {
 		value, ok = e.values[path[0]]
 		e.rwMutex.RUnlock()
 		if ok {
-			e, ok = value.Interface().(*Env)
+			var module *Env
+			module, ok = value.Interface().(*Env)
 			if ok {
+				e = module
 				break
 			}
 		}
@@ -142,8 +144,10 @@ func (e *Env) GetEnvFromPath(path []string) (*Env, error) {
 		value, ok = e.values[path[i]]
 		e.rwMutex.RUnlock()
 		if ok {
-			e, ok = value.Interface().(*Env)
+			var module *Env
+			module, ok = value.Interface().(*Env)
 			if ok {
+				e = module
 				continue
 			}
 		}
